@@ -482,9 +482,10 @@ class Rinex2Parser(ChainParser):
         # Read observation epoch entry
         if line["year"]:
 
-            # Get correct 4-digit year (in observation epoch only 2-digit year is given)
+            # Get correct 4-digit year (in observation epoch only 2-digit year is given, RINEX 2.11: 80-99 -> 1980-1999 and
+            # 00-79 -> 2000-2079)
             first_obs_year = self.meta["time_first_obs"][0:4]
-            year = int(first_obs_year[0:2] + line["year"].zfill(2))
+            year = int(line["year"]) + (1900 if int(line["year"]) >= 80 else 2000)
 
             # Check if 'year' is unique in the complete RINEX file
             if "time_last_obs" in self.meta:
